@@ -65,7 +65,7 @@ def gen_stage(rng, flows, allow_fan=True, depth=0):
         mn = rng.choice([1, 2]) * unit
         mx = mn + rng.choice([1, 2]) * unit
         return {'t': 'RED', 'rate': rng.choice([1024, 4096, rate]), 'lb': lb, 'min': mn, 'max': mx,
-                'qlimit': mx + rng.choice([0, 1, 2]) * unit, 'maxp': rng.choice([0.1, 0.5, 1.0]), 'wf': rng.choice([0, 1, 2]),
+                'qlimit': mx + rng.choice([0, 1, 2]) * unit, 'maxp': rng.choice([0.1, 0.5, 1.0]), 'wf': rng.choice([0, 1, 2, 9]),
                 'draws': [rng.random() for _ in range(8)]}
     if k == 'Wire':
         return {'t': 'Wire', 'delays': [rng.choice([0, 0.125, 0.25, 1, 2]) for _ in range(rng.randint(1, 5))],
